@@ -13,6 +13,7 @@ import re
 import shutil
 import subprocess
 import sys
+import threading
 import time
 
 VERIF = os.path.dirname(os.path.dirname(os.path.abspath(__file__)))
@@ -234,6 +235,35 @@ def eval_cases(workdir, name, body, result_ident="verif_result", timeout=900):
     return txt, out, dt
 
 
+def eval_bool_items(workdir, name, header, items, shard=1500, timeout=900):
+    """items: Coq terms of type bool.  Evaluates them in shards (one huge list literal overflows coqc's stack or memory) and
+    returns (indices of the items that are false, total coqc seconds), or (None, coqc output) if a shard does not compile."""
+    bad, total = [], 0.0
+    for s0 in range(0, max(len(items), 1), shard):
+        body = "\n".join(list(header) + ["Definition oks : list bool := " + llit(items[s0:s0 + shard]) + ".",
+                                         "Definition verif_result : list Z := Eval vm_compute in (bad_indices (fun b : bool => b) 0%Z oks)."])
+        txt, out, dt = eval_cases(workdir, "%s_%d" % (name, s0), body, timeout=timeout)
+        total += dt
+        if txt is None:
+            return None, out
+        bad += [s0 + v for v in parse_z_list(txt)]
+    return bad, total
+
+
+def eval_code_items(workdir, name, header, items, shard=500, timeout=1500):
+    """items: Coq terms of type Z (0 = agrees).  Evaluated in shards; returns ([(index, code)] for the non-zero ones, coqc seconds) or (None, output)."""
+    bad, total = [], 0.0
+    for s0 in range(0, max(len(items), 1), shard):
+        body = "\n".join(list(header) + ["Definition codes : list Z := " + llit(items[s0:s0 + shard]) + ".",
+                                         "Definition verif_result : list Z := Eval vm_compute in (map (fun p => fst p * 1000 + snd p)%Z (nonzero_indices 0%Z codes))."])
+        txt, out, dt = eval_cases(workdir, "%s_%d" % (name, s0), body, timeout=timeout)
+        total += dt
+        if txt is None:
+            return None, out
+        bad += [(s0 + v // 1000, v % 1000) for v in parse_z_list(txt)]
+    return bad, total
+
+
 def parse_z_list(txt):
     """Parse `name = [a; b; c] : list Z` (also with %Z suffixes / parentheses)."""
     m = re.search(r"=\s*\[(.*?)\]\s*:", txt, re.S)
@@ -258,7 +288,10 @@ def overlay_json(workdir, mapping):
     """mapping: {repo-relative target file: /verif/harness/overlay/... source}"""
     rep = {os.path.join(REPO, k): os.path.join(HARNESS, "overlay", v) for k, v in mapping.items()}
     p = os.path.join(workdir, "overlay.json")
-    json.dump({"Replace": rep}, open(p, "w"), indent=1)
+    tmp = "%s.%d.%d" % (p, os.getpid(), threading.get_ident())
+    with open(tmp, "w") as f:
+        json.dump({"Replace": rep}, f, indent=1)
+    os.replace(tmp, p)   # atomic: two harness runs of one check may start side by side
     return p
 
 
